@@ -532,6 +532,52 @@ def relaxed_fill_expectation(ds, st):
     return out
 
 
+def rows_not_in_unlimited_answer(ans, ds, st):
+    """For limit/offset on a grouped query: the rows of the actual answer that are no rows of the reference answer of the
+    same statement without LIMIT/OFFSET (a limit may select rows, it must not change them)."""
+    st0 = dict(st)
+    st0["limit"] = None
+    unl = {json.dumps(e["tags"], sort_keys=True): e for e in evaluate(ds, st0)}
+    bad = []
+    for s in ans.get("series", []):
+        e = unl.get(json.dumps(s["tags"], sort_keys=True))
+        for r in s["values"]:
+            ok = False
+            if e is not None:
+                if "alts" in e:
+                    ok = any(r[0] == t and _teq(r[1:], v) for t, v in e["alts"])
+                else:
+                    ok = any(r[0] == t and any(_teq(r[1:], c) for c in cand) for t, cand, _ in e["groups"])
+            if not ok:
+                bad.append(r)
+    return bad
+
+
+def relaxed_selector_expectation(ds, st, any_row_time=False):
+    """Like relaxed_desc_selector_expectation; with any_row_time the time may be the time of ANY row of the group's series
+    (also rows whose f is null or that lie outside the time range)."""
+    exp = relaxed_desc_selector_expectation(ds, st)
+    if not any_row_time:
+        return exp
+    _, tagfn, _ = _pred(st["pred"], ds)
+    times = {}
+    for si, ti, t, f, g in ds.points():
+        if tagfn and not tagfn(SERIES[si]):
+            continue
+        times.setdefault(SERIES[si][st["gbtag"]] if st["gbtag"] else "", set()).add(t)
+    ref = {json.dumps(e["tags"], sort_keys=True): e for e in evaluate(ds, st)}
+    out = []
+    for e in exp:
+        k = e["tags"][st["gbtag"]] if st["gbtag"] else ""
+        vals = set(v for _, v in e["alts"])
+        r = ref[json.dumps(e["tags"], sort_keys=True)]
+        tmax = max(t for t, _ in r["alts"])
+        # the right row, or a wrong row that carries the time of a NEWER row of the group
+        out.append({"tags": e["tags"], "columns": e["columns"],
+                    "alts": list(r["alts"]) + sorted((t, v) for t in times.get(k, ()) if t > tmax for v in vals)})
+    return out
+
+
 def relaxed_desc_selector_expectation(ds, st):
     """first()/last() under ORDER BY time DESC (known defect): same series as the reference, one row each, whose time is the
     time of SOME point of the group and whose value is the value of SOME point of the group (tag predicate only)."""
